@@ -34,7 +34,7 @@ Classical == {29, 23, 24, 25}
 Base == [sc |-> 0, mode |-> "compliant", id |-> "", sni |-> "example.com", ver |-> 0, vmin |-> 0, vmax |-> 0, suite |-> 0, group |-> 0,
          cert |-> "ecdsa", alpn |-> <<>>, force_suite |-> 0, force_group |-> 0, force_alpn |-> "", hrr_cookie |-> 0,
          legacy_only |-> FALSE, canary |-> 0, sid_echo |-> "", compression |-> 0, psk_index |-> 0, hrr_group |-> 0,
-         omit |-> TRUE, remove_sni |-> FALSE, ekm |-> 0, kx_share |-> "", kx_secret |-> "", kx_kem |-> "",
+         omit |-> TRUE, remove_sni |-> FALSE, ekm |-> 0, kx_share |-> "", kx_secret |-> "", kx_kem |-> "", edit |-> "",
          alps_cp |-> 0, alps12 |-> FALSE, client_alps |-> "", alps_settings |-> <<>>, client_auth |-> 0, resume |-> FALSE]
 
 \* ---- the compliant grid (C10, C11, C18): every choice the hello offers and the server can make
@@ -43,6 +43,13 @@ CertKinds(suite, ver) == IF ver = 772 THEN {"ecdsa", "rsa", "ed25519"}
 GroupChoices(o, suite, ver) == IF ver = 772 THEN o.groups \cap ImplGroups
                                ELSE IF SuiteRec(suite).ECDHE THEN o.groups \cap Classical ELSE {0}
 Offers == [id \in IDs |-> SpecOffer(id)]
+\* edits of uconn.Extensions after an explicit build: the offer on the wire is the edited one
+LastGroup(id) == IF HasExt(Specs[id], "SupportedCurvesExtension")
+                 THEN LET c == TheExt(Specs[id], "SupportedCurvesExtension").f.Curves IN IF Len(c) > 0 THEN c[Len(c)] ELSE 0
+                 ELSE 0
+EditOffer(of, e, id) == IF e = "alpn-http11" THEN [of EXCEPT !.alpn = {HTTP11}]
+                        ELSE IF e = "groups-drop-last" THEN [of EXCEPT !.groups = @ \ {LastGroup(id)}]
+                        ELSE of
 GridFor(id) ==
   LET o == Offers[id] IN
   UNION {UNION {{[Base EXCEPT !.id = id, !.ver = v, !.suite = s, !.group = g, !.cert = c, !.alpn = a] :
@@ -74,6 +81,11 @@ C12Set ==
                                       g \in (o.shares \cap ImplGroups) \cup ((ImplGroups \ o.groups) \cap Classical)} ELSE {})
         \* unoffered ALPN protocol
         \cup {[Adv(x) EXCEPT !.force_alpn = "zz", !.alpn = <<"zz">>]}
+        \* the caller edited the built hello before Handshake (uconn.Extensions): the server picks what only the FIRST
+        \* build offered - h2 after the ALPN list was cut down to http/1.1, the group that was removed from supported_groups
+        \cup (IF {H2, HTTP11} \subseteq o.alpn THEN {[Adv(x) EXCEPT !.edit = "alpn-http11", !.force_alpn = "h2", !.alpn = <<"h2">>]} ELSE {})
+        \cup (IF x.ver = 772 /\ LastGroup(x.id) \in (Classical \cap ImplGroups) \ o.shares /\ Cardinality(o.groups) > 1
+              THEN {[Adv(x) EXCEPT !.edit = "groups-drop-last", !.force_group = LastGroup(x.id)]} ELSE {})
         \* session id not echoed, compression method, PSK identity nobody offered
         \cup (IF x.ver = 772 THEN {[Adv(x) EXCEPT !.sid_echo = "flip"], [Adv(x) EXCEPT !.psk_index = 1], [Adv(x) EXCEPT !.psk_index = 3]} ELSE {})
         \cup {[Adv(x) EXCEPT !.compression = 1]}
@@ -96,12 +108,12 @@ AnyGroup(id, v, s) == IF s = 0 THEN 0 ELSE
 C13Set == {[Adv(Base) EXCEPT !.id = id, !.ver = v, !.legacy_only = lo, !.canary = cn, !.suite = AnySuite(id, v),
                              !.group = AnyGroup(id, v, AnySuite(id, v)),
                              !.cert = IF AnySuite(id, v) # 0 /\ v < 772 /\ ~SuiteRec(AnySuite(id, v)).ECSign THEN "rsa" ELSE "ecdsa"] :
-             id \in IDs, v \in 769..772, lo \in BOOLEAN, cn \in {0, 1, 2}}
+             id \in IDs, v \in 769..772, lo \in BOOLEAN, cn \in {0, 1, 2, 3}}
           \* the same TLS 1.2 answers when the server can resume a session of an earlier TLS 1.2 connection
           \cup {[Adv(Base) EXCEPT !.id = id, !.ver = 771, !.legacy_only = lo, !.canary = cn, !.suite = AnySuite(id, 771),
                                   !.group = AnyGroup(id, 771, AnySuite(id, 771)), !.resume = TRUE,
                                   !.cert = IF AnySuite(id, 771) # 0 /\ ~SuiteRec(AnySuite(id, 771)).ECSign THEN "rsa" ELSE "ecdsa"] :
-                  id \in {i \in IDs : 771 \in Offers[i].versions}, lo \in BOOLEAN, cn \in {0, 1, 2}}
+                  id \in {i \in IDs : 771 \in Offers[i].versions}, lo \in BOOLEAN, cn \in {0, 1, 2, 3}}
 
 \* ---- HelloRetryRequest (C17): every offered classical group without a share, with and without cookie
 C17Set == UNION {{[x EXCEPT !.group = g, !.hrr_cookie = ck] : g \in (Offers[x.id].groups \cap Classical) \ Offers[x.id].shares, ck \in {0, 1, 255, 4000}}
@@ -133,11 +145,14 @@ SrvSuite(x) == IF x.force_suite # 0 THEN x.force_suite ELSE x.suite
 \* version the server settles on, 0 = it refuses
 SrvVersion(x, o) == IF x.legacy_only THEN (IF x.ver <= o.legacy THEN x.ver ELSE 0)
                     ELSE IF x.ver \in o.versions THEN x.ver ELSE 0
-SrvALPN(x, o) == IF x.force_alpn # "" THEN <<122,122>>
+SrvALPN(x, o) == IF x.force_alpn = "h2" THEN H2 ELSE IF x.force_alpn # "" THEN <<122,122>>
                  ELSE IF x.alpn = <<>> \/ o.alpn = {} THEN <<>>
                  ELSE IF H2 \in o.alpn THEN H2 ELSE IF HTTP11 \in o.alpn THEN HTTP11 ELSE <<0>>   \* <<0>>: no overlap, server refuses
 \* the scenario's server supports exactly one version, so it sets the sentinel only when forced (canary = 2)
-CanaryBytes(x, v) == IF x.canary = 2 /\ v < 772 THEN (IF v = 771 THEN Canary12 ELSE Canary11) ELSE <<1,2,3,4,5,6,7,8>>
+\* canary = 3: the sentinel of the other version class (RFC 8446 4.1.3: a client that offered TLS 1.3 refuses either value)
+CanaryBytes(x, v) == IF x.canary = 2 /\ v < 772 THEN (IF v = 771 THEN Canary12 ELSE Canary11)
+                     ELSE IF x.canary = 3 /\ v < 772 THEN (IF v = 771 THEN Canary11 ELSE Canary12)
+                     ELSE <<1,2,3,4,5,6,7,8>>
 MkHRR(x, o) == [ok |-> TRUE, vers |-> 771, random |-> HRRRandom, sid |-> o.sid, suite |-> SrvSuite(x), comp |-> 0,
                 exts |-> <<X(43, U16(772)), X(51, U16(IF x.hrr_group # 0 THEN x.hrr_group ELSE SrvGroup(x)))>>
                          \o (IF x.hrr_cookie > 0 THEN <<X(44, Vec16([i \in 1..x.hrr_cookie |-> 192 + ((i-1) % 32)]))>> ELSE <<>>)]
@@ -155,7 +170,7 @@ MkEE(x, o) == (IF SrvALPN(x, o) \notin {<<>>, <<0>>} THEN <<X(16, Vec16(Vec8(Srv
 VARIABLES scn, phase, o, hrr, hrrSeen, sh, must
 vars == <<scn, phase, o, hrr, hrrSeen, sh, must>>
 Terminal == phase \in {"done", "aborted", "refused"}
-Init == /\ scn \in Scenarios /\ phase = "ch1" /\ o = Offers[scn.id] /\ hrr = BadSH /\ hrrSeen = FALSE /\ sh = BadSH /\ must = ""
+Init == /\ scn \in Scenarios /\ phase = "ch1" /\ o = EditOffer(Offers[scn.id], scn.edit, scn.id) /\ hrr = BadSH /\ hrrSeen = FALSE /\ sh = BadSH /\ must = ""
 
 \* the server's first answer: refusal, HelloRetryRequest or ServerHello
 ServerFirst ==
